@@ -188,9 +188,16 @@ fn do_line(out: &mut Out, line: &str) {
 			let orc = match &r {
 				Ok(e) => {
 					let s = serde_json::to_string(e).unwrap();
+					// "equal" is judged field by field here, and the library's own `==` must say the same
+					let same = |a: &ErrorObject, b: &ErrorObject| a.code() == b.code() && a.message() == b.message() && a.data().map(|d| d.get()) == b.data().map(|d| d.get());
+					let data_owned: Option<Box<RawValue>> = e.data().map(|d| d.to_owned());
+					let other_code = ErrorObject::owned(e.code().wrapping_add(1), e.message().to_string(), data_owned.clone());
+					let other_msg = ErrorObject::owned(e.code(), format!("{}x", e.message()), data_owned.clone());
+					let other_data = ErrorObject::owned(e.code(), e.message().to_string(), Some(RawValue::from_string("[\"other\"]".into()).unwrap()));
+					let eq_ok = (other_code == *e) == same(&other_code, e) && (other_msg == *e) == same(&other_msg, e) && (other_data == *e) == same(&other_data, e);
 					match serde_json::from_str::<ErrorObject>(&s) {
-						Ok(e2) if &e2 == e => Ok(()),
-						other => Err(format!("error object re-parse mismatch: {s} -> {other:?}")),
+						Ok(e2) if same(&e2, e) && e2 == *e && eq_ok => Ok(()),
+						other => Err(format!("error object re-parse mismatch (or `==` disagrees with the fields): {s} -> {other:?}")),
 					}
 				}
 				Err(_) => Ok(()),
